@@ -239,6 +239,7 @@ func TestC02(t *testing.T) {
 	r := newRun(t, "C02", "exploration")
 	defer r.Finish()
 	r.Rule = "witness stacks over a 12-item labelled alphabet (valid/invalid signatures of taker, maker, third key; preimage right/wrong/other lengths; empty; 0x01; the script) × sequences × tx versions × CSV values × chains, run on the script bytes built by the real onchain.ParamsToTxScript/GetOutputScript; executors: btcd engine with standard and consensus-only flags (Bitcoin) and the independent template interpreter (Bitcoin: must agree with btcd; Liquid: Elements sighash). In addition scripts are built for payment hashes that are the SHA256 of 0/1/20/31/33/64/65/520-byte values: no witness carrying that value may be accepted (32-byte clause of the hash lock). distinct = (chain, csv, version, sequence class, accepting stack | rejecting-shape class)"
+	r.Rule += " In addition whole-node worlds: a real maker (both roles, both chains) against a scripted taker whose agreement carries protocol_version 0/6/7/8/255; if an opening tx is broadcast, the announced output must carry exactly the script of (taker key, maker key, invoice hash, the chain's protocol-7 CSV)."
 	r.Assumptions = []string{"btcd txscript is a faithful consensus interpreter", "Elements script rules for these opcodes equal Bitcoin's; Elements segwit-v0 sighash is go-elements HashForWitnessV0"}
 
 	type combo struct {
